@@ -684,7 +684,7 @@ theorem toArgs_fields {env : Environ} {ns : Namespace} {a : Args} (h : toArgs en
     (∃ v, ns.lookup "generate_namespace_types" = some v ∧ a.gnt = truthy v) := by
   unfold toArgs at h
   split at h
-  · rename_i row outdir ext stem tpl stpl gs om gnt _ _ _ _ _ _ hgs hom hgnt
+  · rename_i row outdir ext stem tpl stpl gs om gnt incl _ _ _ _ _ _ hgs hom hgnt _
     simp only [Option.some.injEq] at h
     subst h
     exact ⟨⟨om, hom, rfl⟩, ⟨gs, hgs, rfl⟩, ⟨gnt, hgnt, rfl⟩⟩
